@@ -236,6 +236,22 @@ theorem c19_encode_injective (hleb : Model.LebGoSpec) (v w : VLA) (hv : v.WF) (h
   injection h1 with _ h
   exact h.symm
 
+/-- Outside `VLA.WF`: an allocation without active layers.  The code writes the header byte, the
+    zero bitmask byte(s) and one zero #tl byte, and reads that back (so it round-trips in its own
+    format, for every RID and stream count); the specification text prescribes the single byte 0
+    for "nothing sent", which the code neither writes nor accepts.  Recorded as an interpretation
+    (see obligations.d/vla.json), not as a violation: under the specification's encoding RID and NS
+    could not round-trip at all. -/
+theorem c19_empty_allocation :
+    ∀ (count : Fin 4) (rid : Fin 4), rid.val ≤ count.val →
+      marshalGo ⟨(rid.val : Int), ((count.val + 1 : Nat) : Int), [], false⟩ =
+        .ok ((64 * rid.val + 16 * count.val).toUInt8 :: List.replicate (2 + count.val / 2) 0) ∧
+      unmarshal default ((64 * rid.val + 16 * count.val).toUInt8 :: List.replicate (2 + count.val / 2) 0) =
+        .ok (3 + count.val / 2) ⟨(rid.val : Int), ((count.val + 1 : Nat) : Int), [], false⟩ ∧
+      encode ⟨(rid.val : Int), ((count.val + 1 : Nat) : Int), [], false⟩ = [0] ∧
+      unmarshal default [0] = .fail 1 .tooShort := by
+  decide
+
 /-- Marshal never panics, whatever the allocation (valid, rejected, or accepted though not valid:
     unsorted layers, negative bitrates, out-of-range resolutions): once validation has passed, the
     buffer it sizes is filled exactly. -/
